@@ -123,6 +123,13 @@ P.update({
           'explicit TLA+ specification of the routing rules, TLC enumeration of small rule tables, oracle evaluation of recorded decisions of the real routers'),
 })
 
+P.update({
+  'C13': (True, 'Unpickle.tla',
+          'Unpickle.tla is the pickle machine restricted to global references (GLOBAL, STACK_GLOBAL, INST, OBJ, NEWOBJ, NEWOBJ_EX, REDUCE, BUILD, EXT, PERSID, memo) with SafeUnpickler.find_class as the only gate; TLC proves Safe, NothingOnPy3 and PlainResult over every opcode program up to the bound under Python 3 and Python 2 allow-list semantics; TLC-simulated abstract programs are assembled into bytes for protocols 0-5 and several concrete encodings, templates of every route are nested at depth 0-3 inside a well-formed datapoint list, the lookup routes are swept over the (module, attribute) pairs of all loaded modules, all delivered through the real MetricPickleReceiver.dataReceived and CacheManagementHandler.dataReceived; a spy around the unpickler chosen in connectionMade, canaries and an audit hook are the observation and Unpickle.tla (trace mode) judges every record.',
+          'references on calling routes are canaries of a harness module only; the sweep over loaded modules uses lookup-only routes (stride 23 in quick, every pair in thorough)',
+          TECH),
+})
+
 PENDING_REASON = 'check not built yet in this round (planned per DESIGN.md section 5); not claimed until its TLA+ model and conformance harness exist'
 
 
